@@ -133,20 +133,28 @@ Definition create_time_full (clk : positive) (procstat data : bytes) : outcome Q
 (* Process._is_zombie: data[rpar + 2 : rpar + 3] == b"Z" *)
 Definition is_zombie (data : bytes) : bool := beqb (firstn 1 (after_rpar data)) [90].
 
-(* wrap_exceptions around an accessor that reads the stat file through
-   _parse_stat_file.  [first] = what bcat() gives there, [second] = what the re-read in
-   _is_zombie gives, [exists_after] = os.path.exists(<pid>/stat) in the FileNotFoundError branch.
+(* wrap_exceptions, as it is nested in the code: the accessor (name, status, cpu_num, ...)
+   is wrapped and calls _parse_stat_file, which is wrapped too.
+   [first] = what bcat() gives in _parse_stat_file; [second] = the re-read of _is_zombie in the
+   inner wrapper; [third] = the re-read of _is_zombie in the outer wrapper (reached only when the
+   inner one re-raises FileNotFoundError); [e1], [e2] = os.path.exists(<pid>/stat) in the two
+   FileNotFoundError branches.
    PermissionError -> AccessDenied; ProcessLookupError -> Zombie | NoSuchProcess;
    FileNotFoundError -> Zombie | NoSuchProcess | re-raised. *)
 Inductive sread := SData (b : bytes) | SENOENT | SESRCH | SEACCES.
-Definition wrapped {A} (f : bytes -> outcome A) (first second : sread) (exists_after : bool) : outcome A :=
-  let zombie := match second with SData d => is_zombie d | _ => false end in
+Definition zombie_read (s : sread) : bool := match s with SData d => is_zombie d | _ => false end.
+Definition wrapped {A} (f : bytes -> outcome A) (first second third : sread) (e1 e2 : bool) : outcome A :=
   match first with
   | SData d => f d
   | SEACCES => Exc AccessDenied
-  | SESRCH => if zombie then Exc ZombieProcess else Exc NoSuchProcess
-  | SENOENT => if zombie then Exc ZombieProcess
-               else if exists_after then Exc OSError else Exc NoSuchProcess
+  | SESRCH => if zombie_read second then Exc ZombieProcess else Exc NoSuchProcess
+  | SENOENT =>
+    if zombie_read second then Exc ZombieProcess
+    else if e1 then
+      (* FileNotFoundError leaves the inner wrapper and meets the outer one *)
+      (if zombie_read third then Exc ZombieProcess
+       else if e2 then Exc OSError else Exc NoSuchProcess)
+    else Exc NoSuchProcess
   end.
 
 (* psutil/__init__.py Process.status(): try: self._proc.status() except ZombieProcess: STATUS_ZOMBIE *)
